@@ -344,7 +344,11 @@ func cmdCheck(args []string) int {
 				}
 			} else {
 				vv := v
-				fails = append(fails, failure{r.Fn, o.Name, "obligation not discharged (" + v.Answer + ")", o.Pos, o.Desc, &vv})
+				reason := "obligation not discharged (" + v.Answer + ")"
+				if o.Uninterpretable != "" {
+					reason = "the clause speaks about something that no longer exists at this site: " + o.Uninterpretable
+				}
+				fails = append(fails, failure{r.Fn, o.Name, reason, o.Pos, o.Desc, &vv})
 			}
 		}
 	}
